@@ -42,6 +42,8 @@ var blockingNames = map[string]bool{
 	"WriteString": true, "Fprintf": true, "Fprint": true, "Fprintln": true,
 	"ReadFrom": true, "WriteTo": true, "CopyN": true, "CloseWithError": true,
 	"Do": true, "RoundTrip": true, "ServeHTTP": true,
+	// further stdlib readers a refactoring may switch to (bufio.Scanner / bufio.Reader)
+	"Scan": true, "ReadLine": true, "ReadSlice": true, "Peek": true, "Discard": true,
 }
 
 type inst struct {
@@ -544,8 +546,21 @@ func (in *inst) stmt(st ast.Stmt) (pre []ast.Stmt, repl ast.Stmt, post []ast.Stm
 		in.funcLitsIn(s.Cond)
 		in.funcLitsIn(s.Post)
 		in.block(s.Body)
-		if oi := in.scan(s.Init, s.Cond, s.Post); oi.blocking {
+		if oi := in.scan(s.Init, s.Post); oi.blocking {
 			in.warns = append(in.warns, fmt.Sprintf("%s: blocking operation in for clause is not annotated", in.site(s).Value))
+		} else if s.Cond != nil && in.scan(s.Cond).blocking {
+			// for init; cond(); post { body }  =>  for init; ; post { Yield; c := cond(); AfterBlock; if !c { break }; body }
+			in.counts["for-cond-blocking"]++
+			cond := s.Cond
+			s.Cond = nil
+			head := []ast.Stmt{
+				in.rtCall("Yield", in.site(s)),
+				&ast.AssignStmt{Lhs: []ast.Expr{ast.NewIdent("verifCond")}, Tok: token.DEFINE, Rhs: []ast.Expr{cond}},
+				in.rtCall("AfterBlock", in.site(s)),
+				&ast.IfStmt{Cond: &ast.UnaryExpr{Op: token.NOT, X: ast.NewIdent("verifCond")},
+					Body: &ast.BlockStmt{List: []ast.Stmt{&ast.BranchStmt{Tok: token.BREAK}}}},
+			}
+			s.Body.List = append(head, s.Body.List...)
 		}
 		return
 	case *ast.RangeStmt:
